@@ -256,8 +256,15 @@ pub fn gen_absorbing_dense(src: &mut Src, opts: &LayoutOpts) -> GenLayout {
       }
     };
     from.push(final_key);
-    let shape = src.weighted(&[45, 15, 15, 25]);
+    let shape = src.weighted(&[40, 15, 15, 22, 8]);
     let to: Vec<KeyCode> = match shape {
+      4 => {
+        // key first, modifier last: legal, and not what the code calls a key-producing mapping
+        let m = src.pick(&[LEFTSHIFT, mods[0], mods[1], LEFTCTRL]);
+        let t = TAGS[next_tag];
+        next_tag += 1;
+        vec![t, m]
+      }
       0 => {
         let t = TAGS[next_tag];
         next_tag += 1;
